@@ -6,13 +6,13 @@ From LV Require Import model.VecIndex model.Abft model.AbftRun spec.ElectionSpec
 Import ListNotations.
 Local Open Scope N_scope.
 
-Lemma count_builds_sched lam vals sc tl : (length sc <= count_builds (sched_ops lam vals sc tl))%nat.
+Lemma count_builds_sched ep lam vals sc tl : (length sc <= count_builds (sched_ops_ep ep lam vals sc tl))%nat.
 Proof.
-  unfold sched_ops. rewrite count_builds_app. induction sc as [|s sc IH]; cbn [flat_map length]; [lia|].
+  unfold sched_ops_ep. rewrite count_builds_app. induction sc as [|s sc IH]; cbn [flat_map length]; [lia|].
   rewrite count_builds_app.
-  change (OpB (to_aevent lam vals (s_ev s)) :: s_mid s ++ [OpP (to_aevent lam vals (s_ev s))])
-    with ([OpB (to_aevent lam vals (s_ev s))] ++ s_mid s ++ [OpP (to_aevent lam vals (s_ev s))]).
-  rewrite !count_builds_app. change (count_builds [OpB (to_aevent lam vals (s_ev s))]) with 1%nat. lia.
+  change (OpB (to_aevent ep lam vals (s_ev s)) :: s_mid s ++ [OpP (to_aevent ep lam vals (s_ev s))])
+    with ([OpB (to_aevent ep lam vals (s_ev s))] ++ s_mid s ++ [OpP (to_aevent ep lam vals (s_ev s))]).
+  rewrite !count_builds_app. change (count_builds [OpB (to_aevent ep lam vals (s_ev s))]) with 1%nat. lia.
 Qed.
 
 Theorem link_noise_raw (cap : nat) lam vals (sc : list slot) (tl : list op) J K :
@@ -39,10 +39,10 @@ Proof.
     { intros e He. destruct Valid as [Hacc _]. apply (accepted_cr vals _ _ (table_wfTD vals D Hacc) e). apply -> in_rev. exact He. }
     assert (Estart : start 1 vals = start 1 (vals' vals)) by (unfold start; rewrite EV, Can; reflexivity).
     assert (Eops : sched_ops (fun e' => lam (upe vals e')) (vals' vals) sc' tl = ops).
-    { unfold ops, sched_ops, sc'. f_equal. rewrite !flat_map_concat_map, map_map. f_equal. apply map_ext_in. intros s Hs.
+    { unfold ops, sched_ops, sched_ops_ep, sc'. f_equal. rewrite !flat_map_concat_map, map_map. f_equal. apply map_ext_in. intros s Hs.
       cbn [s_pre s_ev s_mid].
       assert (He : In (s_ev s) D) by (unfold D; apply in_map; exact Hs).
-      assert (Eae : to_aevent (fun e' => lam (upe vals e')) (vals' vals) (pe vals (s_ev s)) = to_aevent lam vals (s_ev s)).
+      assert (Eae : to_aevent 1 (fun e' => lam (upe vals e')) (vals' vals) (pe vals (s_ev s)) = to_aevent 1 lam vals (s_ev s)).
       { unfold to_aevent. cbn [pe fe ffr eid ecr eseq epar]. fold (pe vals (s_ev s)). rewrite (upe_pe vals _ (Hcr _ He)). f_equal. unfold vid.
         rewrite (vid_vals' vals _ (pos_lt _ _ Hperm _ (Hcr _ He))), (unpos_pos _ _ Hperm _ (Hcr _ He)). reflexivity. }
       rewrite Eae. reflexivity. }
@@ -55,7 +55,7 @@ Proof.
   split; [exact E1|]. rewrite E1. symmetry. apply link_full_raw; [|exact Valid].
   destruct Side as (Hf & HJ & HB & HK).
   assert (HL : N.of_nat (length D) <= K).
-  { pose proof (count_builds_sched lam vals sc tl). unfold D. rewrite map_length. fold ops in H. lia. }
+  { pose proof (count_builds_sched 1 lam vals sc tl) as H. unfold D. rewrite map_length. change (sched_ops_ep 1 lam vals sc tl) with ops in H. lia. }
   split; [exact Raw|]. split; [exact Tot|]. split; [|lia].
-  intros e He (ep & lm & c & t & Bc & S & E). apply (proj1 (Hf e He)). exists ep, lm, c, t. split; [lia | auto].
+  intros e He (ep0 & lm & c & t & Bc & S & E). apply (proj1 (Hf e He)). exists ep0, lm, c, t. split; [lia | auto].
 Qed.
